@@ -108,17 +108,23 @@ structure Codec (Wire : Type) where
   dec : Wire → Option Tok
   dec_enc : ∀ t, dec (enc t) = some t
 
-/-- `_open_session_token` -/
-def openSessionToken {Wire : Type} [DecidableEq Wire] (C : Codec Wire) (w : Wire) (key : Nat) (aad : Bytes) :
+/-- `_open_session_token`, parametric in the one shape that differs between the pinned and the repaired tree:
+does it compare the re-encoded envelope with the presented text? -/
+def openSessionTokenP {Wire : Type} [DecidableEq Wire] (canonical : Bool) (C : Codec Wire) (w : Wire) (key : Nat) (aad : Bytes) :
     Except OpenErr (Bytes × Bytes × Nat) :=
   match C.dec w with
   | none => .error .lost
   | some t =>
-    if Sticky.canonicalCheck ∧ C.enc t ≠ w then .error .lost
+    if canonical = true ∧ C.enc t ≠ w then .error .lost
     else
       match openBytes key aad Sticky.tokenVersion t with
       | none => .error .lost
       | some pt => parseFrame pt
+
+/-- `_open_session_token` as extracted -/
+def openSessionToken {Wire : Type} [DecidableEq Wire] (C : Codec Wire) (w : Wire) (key : Nat) (aad : Bytes) :
+    Except OpenErr (Bytes × Bytes × Nat) :=
+  openSessionTokenP Sticky.canonicalCheck C w key aad
 
 /-! ### identities -/
 
@@ -297,8 +303,10 @@ def sealOk (cfg : Cfg) (created expires : Nat) : Bool :=
 
 def sidOfCtr (n : Nat) : Bytes := leBytes Sticky.sessionIdLen n
 
-/-- one API call of the method body -/
-def stepAction (cfg : Cfg) (wk : Nat) (ident : Identity) (client : Nat) (W : World) (rs : RS) : Action → World × RS × ActOut
+/-- one API call of the method body, parametric in the one shape that differs between the pinned and the repaired tree:
+does `_StickySink.open` reset `closed`? -/
+def stepActionP (openResetsClosed : Bool) (cfg : Cfg) (wk : Nat) (ident : Identity) (client : Nat) (W : World) (rs : RS) :
+    Action → World × RS × ActOut
   | .open label ttl =>
     if !rs.accept then (W, rs, .failed .notOptedIn)
     else if rs.sc.isSome then (W, rs, .failed .alreadyActive)
@@ -316,7 +324,7 @@ def stepAction (cfg : Cfg) (wk : Nat) (ident : Identity) (client : Nat) (W : Wor
         let m : Mint := ⟨wk, cfg.serverId, cfg.key, ident, sid, W.env.now, expires, W.env.nonceCtr, tok, client⟩
         ({ W with reg := reg', env := { env' with nonceCtr := W.env.nonceCtr + 1 }, mints := W.mints ++ [m] },
          { rs with sc := some (sid, label), mint := some tok,
-                   closed := if Sticky.sinkOpenResetsClosed then false else rs.closed },
+                   closed := if openResetsClosed then false else rs.closed },
          .opened sid)
   | .close =>
     match rs.sc with
@@ -329,6 +337,10 @@ def stepAction (cfg : Cfg) (wk : Nat) (ident : Identity) (client : Nat) (W : Wor
        .closed hit)
   | .use => (W, rs, .used (rs.sc.map (·.2)))
   | .noop => (W, rs, .noop)
+
+/-- one API call of the method body, as extracted -/
+def stepAction (cfg : Cfg) (wk : Nat) (ident : Identity) (client : Nat) (W : World) (rs : RS) (a : Action) : World × RS × ActOut :=
+  stepActionP Sticky.sinkOpenResetsClosed cfg wk ident client W rs a
 
 /-- the method body: API calls in order; an exception ends it unless the method swallows it -/
 def runScript (cfg : Cfg) (wk : Nat) (ident : Identity) (client : Nat) (swallow : Bool) :
